@@ -84,11 +84,11 @@ func c16ThrTraffic(d string) int {
 }
 
 type c16Oracle struct {
-	alive               map[string]bool // "n/d"
-	probeF, trafficF    map[string]int
-	deaths              int // per address: both nodes share one address
-	muted               bool
-	transitions         []string
+	alive            map[string]bool // "n/d"
+	probeF, trafficF map[string]int
+	deaths           int // per address: both nodes share one address
+	muted            bool
+	transitions      []string
 }
 
 func (o *c16Oracle) key(n int, d string) string { return fmt.Sprintf("%d/%s", n, d) }
@@ -138,31 +138,41 @@ func TestVerifC16(t *testing.T) {
 		reloadProxyFailureSuppression.Store(0)
 		reloadProxyFailureSuppressUntil.Store(0)
 		const nNodes = 2
-		dialers := make([]*Dialer, nNodes)
 		var realTransitions []string
-		for i := 0; i < nNodes; i++ {
-			i := i
-			dialers[i] = NewDialer(direct.SymmetricDirect, &GlobalOption{Log: log, CheckInterval: time.Hour}, InstanceOption{},
-				&Property{Property: D.Property{Name: fmt.Sprintf("n%d", i+1), Address: "proxy.example:443"}})
-			dialers[i].RegisterAliveTransitionCallback(func(nt *NetworkType, alive bool) {
-				st := "dead"
-				if alive {
-					st = "alive"
-				}
-				realTransitions = append(realTransitions, fmt.Sprintf("%d/%s:%s", i+1, c16DomainOf(nt), st))
-			})
-		}
-		// one latency-policy group per health domain containing both nodes; its callback is the kernel connectivity bit
-		sets := map[string]*AliveDialerSet{}
 		bit := map[string][]bool{}
-		for _, d := range c16Domains {
-			d := d
-			sets[d] = NewAliveDialerSet(log, "g", c16Type(d), 0, consts.DialerSelectionPolicy_MinLastLatency, dialers,
-				[]*Annotation{{}, {}}, func(alive bool) { bit[d] = append(bit[d], alive) }, true)
-			for _, dl := range dialers {
-				dl.RegisterAliveDialerSet(sets[d])
+		// one generation: the nodes' dialers and one latency-policy group per health domain containing both nodes (its callback
+		// is the kernel connectivity bit); the transition callbacks are registered by the caller
+		newGeneration := func() ([]*Dialer, map[string]*AliveDialerSet) {
+			ds := make([]*Dialer, nNodes)
+			for i := 0; i < nNodes; i++ {
+				ds[i] = NewDialer(direct.SymmetricDirect, &GlobalOption{Log: log, CheckInterval: time.Hour}, InstanceOption{},
+					&Property{Property: D.Property{Name: fmt.Sprintf("n%d", i+1), Address: "proxy.example:443"}})
+			}
+			ss := map[string]*AliveDialerSet{}
+			for _, d := range c16Domains {
+				d := d
+				ss[d] = NewAliveDialerSet(log, "g", c16Type(d), 0, consts.DialerSelectionPolicy_MinLastLatency, ds,
+					[]*Annotation{{}, {}}, func(alive bool) { bit[d] = append(bit[d], alive) }, true)
+				for _, dl := range ds {
+					dl.RegisterAliveDialerSet(ss[d])
+				}
+			}
+			return ds, ss
+		}
+		watch := func(ds []*Dialer) {
+			for i := range ds {
+				i := i
+				ds[i].RegisterAliveTransitionCallback(func(nt *NetworkType, alive bool) {
+					st := "dead"
+					if alive {
+						st = "alive"
+					}
+					realTransitions = append(realTransitions, fmt.Sprintf("%d/%s:%s", i+1, c16DomainOf(nt), st))
+				})
 			}
 		}
+		dialers, sets := newGeneration()
+		watch(dialers)
 		o := &c16Oracle{alive: map[string]bool{}, probeF: map[string]int{}, trafficF: map[string]int{}}
 		for n := 1; n <= nNodes; n++ {
 			for _, d := range c16Domains {
@@ -221,6 +231,30 @@ func TestVerifC16(t *testing.T) {
 				dl.ReportUnavailableTransactional(nt, context.Canceled)
 				_, _ = dl.Check(&CheckOption{networkType: nt, CheckFunc: func(context.Context, *NetworkType) (bool, error) { return false, context.Canceled }})
 				_, _ = dl.Check(&CheckOption{networkType: nt, CheckFunc: func(context.Context, *NetworkType) (bool, error) { return false, nil }})
+			case "Reload":
+				// the new generation's groups exist when the last known health is handed over, as in the control plane
+				nds, nss := newGeneration()
+				for d := range bit {
+					bit[d] = nil
+				}
+				for i := range nds {
+					nds[i].RestoreHealthSnapshot(dialers[i].ReloadHealthSnapshot())
+				}
+				for _, dl := range dialers {
+					_ = dl.Close()
+				}
+				dialers, sets = nds, nss
+				watch(dialers)
+				realTransitions, o.transitions = nil, nil
+				for kk := range o.probeF {
+					o.probeF[kk] = 0
+				}
+				for kk := range o.trafficF {
+					o.trafficF[kk] = 0
+				}
+				for _, d := range c16Domains {
+					bitWant[d] = true // a new group starts from "alive"; the hand-over must have told it otherwise where needed
+				}
 			case "SuppressOn":
 				BeginReloadProxyFailureSuppression()
 				o.muted = true
